@@ -16,6 +16,9 @@ C05 — crashes and cache damage never leave a build wrong.
   repair alone): `dst_is_stale` never looks at the `.sv.map`.
 * `C05_revert_keeps_crashed_output` (NEGATION, even with atomic output writes): an edit undone with its
   old mtime after the crash makes the crashed run's complete-but-unrecorded output a "fresh" hit.
+* `no_stamp_is_stale`, `no_stamp_is_miss`, `lost_info_recovery`: `dst_is_stale` requires a recorded stamp, so a
+  lost / truncated / never written `info.toml` makes every file re-emit — also when `veryl check` has already
+  moved the manifest ahead of the outputs.
 * `old_blob_payload_not_verified`, `old_diag_blob_damage_drops_warnings`: the two repaired defects, as
   negations about the `…Old` definitions.
 * `recovery_partial`: what does hold for the code as it is; `recovery_fixed`: the repair (staleness test
@@ -432,6 +435,55 @@ theorem damage_recovery (pol : Policy) (mode : OutMode) (E : Env) (wm w2 : World
       ⟨by unfold ManOf; rw [hm]; rfl, fun f hf => by simp at hf⟩
       (fun f hf => by simp at hf) (fun g hg => by simp at hg)
 
+
+/-! ## `info.toml` lost, truncated or never written -/
+
+/-- `dst_is_stale` REQUIRES a recorded stamp: an output without an entry in `generated_files` is stale
+    (`let Some(generated) = … else { return true }`), whatever is on disk and whichever staleness test. -/
+theorem no_stamp_is_stale (pol : Policy) (fs : FS) (mt : File → Nat) (f : File) (h : stampOf fs f = none) :
+    fresh pol fs mt f = false := by
+  unfold fresh; rw [h]
+
+/-- …so an emitting run re-emits it even when the manifest already records the current source hash
+    (e.g. after edit + `veryl check`, which saves the manifest and emits nothing). -/
+theorem no_stamp_is_miss (pol : Policy) (E : Env) (w : World) (mt : File → Nat) (fs : FS) (f : File)
+    (hf : f ∈ w.files) (h : stampOf fs f = none) : f ∈ missFinal pol E w mt true fs := by
+  unfold missFinal
+  simp only [List.mem_append]
+  left
+  apply C04.mem_missSet_of_miss0
+  unfold miss0
+  simp only [List.mem_filter, hf, true_and, Bool.not_eq_true']
+  unfold isHit
+  cases lookup (openMan E.key fs).files f with
+  | none => rfl
+  | some e => simp [no_stamp_is_stale pol fs mt f h]
+
+/-- `info.toml` absent, unparsable, or without a stamp for any output (deleted, truncated, garbage, or the
+    last build SIGKILLed at its final write): whatever the manifest, the blobs and the outputs on disk are
+    — in particular a manifest that `veryl check` moved ahead of the outputs — the next build is clean.
+    No hypothesis on the analyzer. -/
+theorem lost_info_recovery (pol : Policy) (mode : OutMode) (E : Env) (w : World) (mt : File → Nat) (t : Nat) (fs : FS)
+    (hinfo : ∀ f ∈ w.files, stampOf fs f = none) :
+    ∀ f ∈ w.files, OutputsOk E w (build pol mode E w mt t true fs) f := by
+  intro f hf
+  unfold OutputsOk
+  rw [build_out_eq pol mode E w mt true fs (.sv f) ⟨f, Or.inl rfl⟩,
+      build_out_eq pol mode E w mt true fs (.map f) ⟨f, Or.inr rfl⟩]
+  exact (pre_outputs (now := t) pol mode E w mt fs f).1
+    (mem_emitted.mpr ⟨hf, no_stamp_is_miss pol E w mt fs f hf (hinfo f hf)⟩)
+
+/-- Every unreadable `info.toml` gives no stamp at all (`Metadata::load` ignores the file). -/
+theorem unreadable_info_no_stamp (fs : FS) (h : ∀ g t, fs .info ≠ some ⟨.inf g, t⟩) (f : File) : stampOf fs f = none := by
+  unfold stampOf
+  cases hc : fs .info with
+  | none => rfl
+  | some cell =>
+    obtain ⟨c, t⟩ := cell
+    cases c with
+    | raw _ => rfl
+    | man _ => rfl
+    | inf g => exact absurd hc (h g t)
 
 /-- The recovery statement with an edit that is undone: clean build of `w` at `t1`; sources edited to
     `w1` (mtimes `mt1`); the build at `t2` dies after `n` steps; the edit is undone so that contents AND
